@@ -521,6 +521,9 @@ def run(repo: Repo, tier: str) -> Report:
     rep.floor("ws2d / helper call sites checked", ncalls, 22)
     rep.floor("R-MUSTWRITE obligations", sum(1 for o in rep.obls if o.rule == "R-MUSTWRITE"), 30)
     rep.analysed = {"kernels": len(kernels), **tot}
+    # a signature that declares `::1` makes the compiled inner loop index a strided argument as if it were packed: reads outside the series
+    from ..rules import nb_layout
+    nb_layout(rep, kernels, rule="R-LAYOUT")
     rep.floor("subscripts analysed", tot.get("subs", 0), 450)
     return rep
 
